@@ -19,12 +19,18 @@
 #include <stdlib.h>
 #include <string.h>
 #include <unistd.h>
+#include <signal.h>
+#include <setjmp.h>
 
 #include "blocking_struct.c"
 
 #ifdef OF_VERIF
 of_verif_event_hook_t of_verif_event_hook = 0;
 #endif
+
+/* a crash (SIGFPE, SIGSEGV) inside the function under test becomes a trace record */
+static sigjmp_buf g_jmp;
+static void on_crash(int sig) { siglongjmp(g_jmp, sig); }
 
 static void d3(char *buf, UINT32 v)
 {
@@ -54,6 +60,10 @@ int main(int argc, char **argv)
 		fprintf(stderr, "blocking_driver: cannot open files\n");
 		return 2;
 	}
+	{
+		struct sigaction sa; memset(&sa, 0, sizeof sa); sa.sa_handler = on_crash; sigemptyset(&sa.sa_mask); sa.sa_flags = SA_NODEFER;
+		sigaction(SIGFPE, &sa, NULL); sigaction(SIGSEGV, &sa, NULL); sigaction(SIGBUS, &sa, NULL);
+	}
 	errfd = dup(2);
 	if (!freopen("/dev/null", "w", stdout))
 		return 2;
@@ -64,8 +74,12 @@ int main(int argc, char **argv)
 			continue;
 		if (!strcmp(cmd, "w") && n == 4 && a1 <= 0xFFFFFFFFULL && a2 <= 0xFFFFFFFFULL && a3 <= 0xFFFFFFFFULL) {
 			memset(&bs, 0xA5, sizeof bs);
-			of_compute_blocking_struct((UINT32) a1, (UINT32) a2, (UINT32) a3, &bs);
 			d3(b[0], (UINT32) a1); d3(b[1], (UINT32) a2); d3(b[2], (UINT32) a3);
+			if (sigsetjmp(g_jmp, 1) != 0) {
+				fprintf(trace, "{\"e\":\"crash\",\"B\":%s,\"L\":%s,\"E\":%s}\n", b[0], b[1], b[2]);
+				continue;
+			}
+			of_compute_blocking_struct((UINT32) a1, (UINT32) a2, (UINT32) a3, &bs);
 			d3(b[3], bs.nb_blocks); d3(b[4], bs.I); d3(b[5], bs.A_large); d3(b[6], bs.A_small);
 			fprintf(trace, "{\"e\":\"w\",\"B\":%s,\"L\":%s,\"E\":%s,\"N\":%s,\"I\":%s,\"Al\":%s,\"As\":%s}\n",
 				b[0], b[1], b[2], b[3], b[4], b[5], b[6]);
@@ -74,6 +88,11 @@ int main(int argc, char **argv)
 			fprintf(trace, "{\"e\":\"g\",\"B\":%llu,\"E\":%llu,\"L0\":%llu,\"rows\":[", a1, a2, a3);
 			for (j = 0; j < a4; j++) {
 				memset(&bs, 0xA5, sizeof bs);
+				if (sigsetjmp(g_jmp, 1) != 0) {
+					/* crash on this tuple: logged as an impossible row (all -1) */
+					fprintf(trace, "%s[-1,-1,-1,-1]", j ? "," : "");
+					continue;
+				}
 				of_compute_blocking_struct((UINT32) a1, (UINT32) (a3 + j), (UINT32) a2, &bs);
 				fprintf(trace, "%s[%lld,%lld,%lld,%lld]", j ? "," : "", small(bs.nb_blocks), small(bs.I),
 					small(bs.A_large), small(bs.A_small));
